@@ -24,7 +24,7 @@ ASSUMPTIONS = [
     "a v2 deposit whose positive price impact (paid from the impact pool) exceeds the fees makes the round trip profitable by design of the protocol model: recorded as a known finding, bounded by the applied impact",
 ]
 MIN_NONTRIVIAL = {"quick": 8000, "thorough": 150000}
-REQUIRED_LABELS = ["v1.branch.rebate", "v1.branch.tax", "v1.branch.flat", "v1.dec.6", "v1.dec.8", "v1.dec.18", "v1.roundtrip", "v1.oversell.rejected", "v1.reward", "v2.impact.positive", "v2.impact.negative", "v2.impact.capped", "v2.crossover", "v2.roundtrip", "v2.overwithdraw.rejected", "v2.virtual_used", "v1.newrow"]
+REQUIRED_LABELS = ["v1.branch.rebate", "v1.branch.tax", "v1.branch.flat", "v1.dec.6", "v1.dec.8", "v1.dec.18", "v1.roundtrip", "v1.oversell.rejected", "v1.reward", "v2.impact.positive", "v2.impact.negative", "v2.impact.capped", "v2.crossover", "v2.roundtrip", "v2.overwithdraw.rejected", "v2.virtual_used", "v1.newrow", "v2.fees.configured", "v1.register.twice"]
 
 BASE_PRICE = {"btc.b": 66066, "weth": 2629, "wbtc": 66066, "wavax": 29, "mim": 1, "usdc.e": 1, "usdc": 1}
 WEIGHTS = {"btc.b": 20000, "weth": 20000, "wbtc": 3000, "wavax": 10000, "mim": 1, "usdc.e": 1000, "usdc": 46000}
@@ -216,7 +216,8 @@ def st_v2(draw):
         aL = usd / pL if side in ("long", "both") else 0.0
         aS = usd / pS * (0.5 if side == "both" else 1.0) if side in ("short", "both") else 0.0
         ops.append([k, aL, aS])
-    return {"v": 2, "longAmount": longAmount, "shortAmount": shortAmount, "virtualSwapInventoryLong": vL, "virtualSwapInventoryShort": vS, "poolValue": pool, "marketTokensSupply": supply, "impactPoolAmount": ipool,
+    fees = draw(st.sampled_from([None, None, None, {"dp": 0.0005, "dn": 0.0007, "wp": 0.0005, "wn": 0.002}, {"dp": 0.001, "dn": 0.0007, "wp": 0.0005, "wn": 0.0007}, {"dp": 0.0002, "dn": 0.003, "wp": 0.0009, "wn": 0.0004}]))
+    return {"fees": fees, "v": 2, "longAmount": longAmount, "shortAmount": shortAmount, "virtualSwapInventoryLong": vL, "virtualSwapInventoryShort": vS, "poolValue": pool, "marketTokensSupply": supply, "impactPoolAmount": ipool,
             "longPrice": pL, "shortPrice": pS, "indexPrice": pL, "ops": ops, "wallet": {"long": draw(st.sampled_from(["0", "5", "1000000000"])), "short": draw(st.sampled_from(["0", "10000", "1000000000000000"]))}}
 
 
@@ -226,7 +227,7 @@ def rel(a, b, tol=1e-9):
 
 def body_v2(case, ctx: Ctx):
     broker, m, lt, stt, actions = gmx.v2_market(case, case["wallet"])
-    labels = set()
+    labels = {"v2.fees.configured" if case.get("fees") else "v2.fees.default"}
     nontrivial = False
     pL, pS = case["longPrice"], case["shortPrice"]
 
